@@ -1465,7 +1465,8 @@ class xfunc_covariance(xfunc):
                 aweights = None
 
         if coordinates is None:
-            covs[:] = numpy.cov(arr.T, aweights=aweights)
+            if aweights is None or numpy.nansum(aweights) != 0:
+                covs[:] = numpy.cov(arr.T, aweights=aweights)
         else:
             if self.ignore_missing:
                 coordinates = coordinates[self.validity]
@@ -1477,7 +1478,8 @@ class xfunc_covariance(xfunc):
                         w = None
                     else:
                         w = aweights[rowmask]
-                        if len(w) == 0:
+                        if len(w) == 0 or numpy.nansum(w) == 0:
+                            # No rows, or no weight at all: leave the cell missing.
                             continue
                     with numpy.errstate(invalid="ignore"):
                         covs[i] = numpy.cov(seg.T, aweights=w)
